@@ -180,6 +180,12 @@ class ProgGen(object):
         return "E" + respell(self.r, s, self.hostile), base + float(s) * self.unit
 
     def move(self, x=None, y=None, z=None, de=0.0, g="G1", feed=None):
+        open_before, e_before = self.believed_open(), self.e
+        self._move(x, y, z, de, g, feed)
+        if not open_before and self.believed_open():
+            self.entry_e = e_before          # the file's E when the episode was entered
+
+    def _move(self, x=None, y=None, z=None, de=0.0, g="G1", feed=None):
         words = []
         if x is not None:
             w, self.x = self.coord("X", x)
@@ -237,6 +243,14 @@ class ProgGen(object):
         pin = f.get("p_inside", 0.45)
         if f.get("hv") and r.random() < 0.25:
             return self.hostile_value_step()
+        if f.get("g92e_entry") and r.random() < 0.12 and self.believed_open() and not self.is_retracted() \
+                and getattr(self, "entry_e", None) is not None:
+            # coincidence: inside an episode the file re-bases E to exactly the value it had when it entered
+            # ... or to that value plus one retraction length, so that the next retraction ends exactly there
+            target = self.entry_e + (self.f.get("ramt", 3.048) if r.random() < 0.6 else 0.0)
+            w, self.e = self.eword(target, absolute=True)
+            self.emit("G92 " + w)
+            return
         if f.get("boost") and r.random() < f["boost"]:
             k = r.choice([0.955, 0.965])     # G28 mid-program / G92 X/Y/Z
         if k < 0.28:
